@@ -287,11 +287,16 @@ def check(prop_id, tier, seed):
                         return any(f[0] == kind for f in fam.oracle(prop_id, c2, a2))
                     small = shrink_case(fam, drv, cases[ci], pred)
                     a2, b2 = run_pair(fam, drv, [small], jobs=1)
+                    refails = fam.oracle(prop_id, small, a2[0])
                     p = write_replay(prop_id, "%s-%s" % (fam.NAME, kind),
                                      {"property": prop_id, "family": fam.NAME, "kind": kind, "detail": detail,
                                       "reason": "the property oracle fails on the implementation's own trace",
                                       "case": small, "impl_out": a2[0], "model_out": b2[0],
-                                      "failures": fam.oracle(prop_id, small, a2[0])})
+                                      "failures": refails,
+                                      # the case as generated and what the implementation printed for it in the batch: when
+                                      # the behaviour is timing dependent the shrunk case may not fail again on a re-run
+                                      "reproduced_on_rerun": any(f[0] == kind for f in refails),
+                                      "original_case": cases[ci], "original_impl_out": io[ci], "original_model_out": mo[ci]})
                     violations.append((p, ""))
             # ---- correspondence failures
             if fam_mismatch:
@@ -312,7 +317,9 @@ def check(prop_id, tier, seed):
                                   "reason": "correspondence broken: implementation and proved model disagree on this case "
                                             "(%d of %d cases disagree)" % (len(fam_mismatch), len(cases)),
                                   "no_longer_checks": "correspondence %s <-> coq model %s (theorems %s)" % (fam.NAME, fam.MODEL_FAMILY, pr["theorems"]),
-                                  "case": small, "impl_out": a2[0], "model_out": b2[0], "oracle_failures": fl})
+                                  "case": small, "impl_out": a2[0], "model_out": b2[0], "oracle_failures": fl,
+                                  "reproduced_on_rerun": not agree(fam, small, a2[0], b2[0]),
+                                  "original_case": cases[ci], "original_impl_out": io[ci], "original_model_out": mo[ci]})
                 if fl:
                     violations.append((p, ""))
                 elif not already:
